@@ -1,6 +1,8 @@
 """C02 — calling a pipeline equals composing its functions along the DAG (DESIGN.md §5 C02)."""
 from __future__ import annotations
 
+import copy
+
 import contextlib
 import io
 import itertools
@@ -245,6 +247,15 @@ def specs_for(stage):
             yield from gen_dag.decorations(s)
     elif stage == "N3":
         yield from gen_dag.base_specs(3)
+    elif stage == "N3-shared-none":
+        # a None-valued intermediate consumed by two later functions (None must count as "already computed")
+        for s in gen_dag.base_specs(3):
+            for i, f in enumerate(s["funcs"][:2]):
+                if len(f["outs"]) == 1 and sum(1 for g in s["funcs"][i + 1:] if f["outs"][0] in g["params"]) >= 2:
+                    d = copy.deepcopy(s)
+                    d["funcs"][i]["none"] = True
+                    d["deco"] = "returns-none"
+                    yield d
     elif stage == "N3-decorated":
         for s in gen_dag.base_specs(3):
             yield from gen_dag.decorations(s)
@@ -252,9 +263,9 @@ def specs_for(stage):
         yield from gen_dag.base_specs(4, max_params=2, nouts=(1,), min_params=1)
 
 
-STAGES = {"quick": ["N1", "N2", "N2-three-output-producer", "N2-decorated", "N3"],
-          "thorough": ["N1", "N2", "N2-three-output-producer", "N2-decorated", "N3", "N3-decorated", "N4-single-output"]}
-CHUNK = {"N2-three-output-producer": 8, "N1": 8, "N2": 16, "N2-decorated": 40, "N3": 40, "N3-decorated": 200, "N4-single-output": 30}
+STAGES = {"quick": ["N1", "N2", "N2-three-output-producer", "N2-decorated", "N3-shared-none", "N3"],
+          "thorough": ["N1", "N2", "N2-three-output-producer", "N2-decorated", "N3-shared-none", "N3", "N3-decorated", "N4-single-output"]}
+CHUNK = {"N3-shared-none": 20, "N2-three-output-producer": 8, "N1": 8, "N2": 16, "N2-decorated": 40, "N3": 40, "N3-decorated": 200, "N4-single-output": 30}
 
 
 def plan(tier, seed):
